@@ -421,6 +421,8 @@ class nx_flow_mod (of.ofp_flow_mod, of.ofp_vendor_base):
     offset = _skip(raw, offset, (match_len + 7)//8*8 - match_len)
     offset,self.actions = of._unpack_actions(raw,
         length-(offset - _o), offset)
+    self.table_id = self.command >> 8
+    self.command &= 0xff
     assert length == len(self)
     return offset,length
 
